@@ -50,6 +50,8 @@ Tetras == { << <<0,0,0>>, <<1,0,0>>, <<0,1,0>>, <<0,0,1>> >>, << <<1,2,3>>, <<3,
 \* orthogonal integer edge frames (each vector of length 3, resp. axis parallel) for cuboids at lattice positions
 Frames == { << <<2,0,0>>, <<0,1,0>>, <<0,0,3>> >>, << <<1,2,2>>, <<2,1,-2>>, <<2,-2,1>> >>, << <<0,3,0>>, <<0,0,1>>, <<2,0,0>> >> }
 
+\* axis vectors for regular polygons of 3-space: along a coordinate axis, in a coordinate plane, generic; unit and other lengths
+RegularAxes == {<<0,0,1>>, <<0,0,5>>, <<0,-2,0>>, <<1,1,0>>, <<0,3,4>>, <<1,1,1>>, <<1,2,3>>, <<-2,1,2>>, <<2,-1,-2>>, <<3,-4,12>>}
 Init == pc = "start" /\ task \in Tasks /\ first = <<>> /\ res = [t |-> "none"]
 Choose ==
   /\ pc = "start" /\ pc' = "chosen" /\ UNCHANGED <<task, res>>
@@ -103,7 +105,10 @@ Compute ==
      \/ /\ task = "regular"
         /\ \E c \in {<<0, 0>>, <<2, 1>>, <<-3, 4>>}, r \in {1, 2, 5} :
              LET n == first[1] IN
-             res' = [t |-> "regular", n |-> n, c |-> c, r |-> r,
+             \* in 3-space the polygon lies in the plane through the centre perpendicular to a given axis vector (any length,
+             \* any direction); ax = <<>>: the polygon of the plane
+             \E ax \in {<<>>} \cup RegularAxes :
+             res' = [t |-> "regular", n |-> n, c |-> (IF ax = <<>> THEN c ELSE c \o <<c[1] - c[2]>>), r |-> r, ax |-> ax,
                      \* inradius^2 = r^2 cos^2(pi/n), rational for n = 3, 4, 6
                      inr2 |-> IF n = 3 THEN RNorm(r * r, 4) ELSE IF n = 4 THEN RNorm(r * r, 2) ELSE IF n = 6 THEN RNorm(3 * r * r, 4) ELSE <<0, 0>>]
 
@@ -140,8 +145,11 @@ CircumEquidistant == (IsPoly /\ Len(res.poly) = 3) =>
 \* polytope equality is symmetric and true exactly for the 8 rotations/reflections of a quadrilateral's vertex list
 EqLaws == (Done /\ res.t = "eq") => (res.eq = SameCycle(res.q, res.p))
 
+AxisKind(a) == LET nz == Cardinality({i \in 1..3 : a[i] # 0}) IN
+               IF nz = 1 THEN "axis-parallel" ELSE IF nz = 2 THEN "axis-in-coordinate-plane" ELSE "axis-generic"
 Stratum ==
-  CASE res.t = "poly" -> (IF res.e = 0 THEN "planar" ELSE "embedded") \o (IF res.poly[1] = <<0, 0>> THEN "/at-origin" ELSE "/elsewhere")
+  CASE res.t = "regular" -> (IF res.ax = <<>> THEN "regular" ELSE "regular3/" \o AxisKind(res.ax))
+    [] res.t = "poly" -> (IF res.e = 0 THEN "planar" ELSE "embedded") \o (IF res.poly[1] = <<0, 0>> THEN "/at-origin" ELSE "/elsewhere")
     [] res.t = "eq" -> (IF res.eq THEN "same-cycle" ELSE "different-cycle")
     [] OTHER -> res.t
 Dump == (Done /\ DoDump) => PrintT(ToJson([r |-> res, s |-> Stratum]))
